@@ -155,3 +155,79 @@ class CompareClosure(Combinator):
         return {"C08|compare:both-operands-left-first-then-the-operator": z3.And(
             s.g("nop") == k + 2, z3.Select(s.g("op_who"), k) == a.left.e, z3.Select(s.g("op_who"), k + 1) == a.right.e,
             r.e == truthy(CMP(a.operator.e, OP_VAL(k), OP_VAL(k + 1))))}
+
+
+# =========================================================================== the combinators themselves
+from pyvc.core import Clo, HEAP_SORTS  # noqa: E402
+
+CLASSES["Operand"].fields.update({"unique_key": "str", "__name__": "str"})
+HEAP_SORTS.setdefault("Operand.unique_key", z3.ArraySort(Int, Str))
+HEAP_SORTS.setdefault("Operand.__name__", z3.ArraySort(Int, Str))
+
+
+def _operand_getattr(ex, path, obj, name, default, node):
+    if isinstance(name, S) and z3.is_string_value(name.e) and name.e.as_string() in ("unique_key", "__name__"):
+        return [(path, S(path.sel("Operand." + name.e.as_string(), obj.e)))]
+    raise Unsupported("getattr(operand, ...)")
+
+
+CLASSES["Operand"].getattr_fn = _operand_getattr
+
+
+def _closure_check(r, inner_name, captured: dict):
+    """The returned object is the inner `decorated` closure of this very combinator, closed over
+    exactly the given operands (not swapped, not others)."""
+    if not isinstance(r, Clo):
+        return z3.BoolVal(False)
+    ok = getattr(r.node, "name", None) == inner_name
+    for k, v in captured.items():
+        got = r.env.get(k)
+        ok = ok and isinstance(got, O) and z3.eq(got.e, v.e)
+    return z3.BoolVal(bool(ok))
+
+
+def _attr(r, name):
+    v = r.attrs.get(name) if isinstance(r, Clo) else None
+    return v.e if isinstance(v, S) else z3.StringVal("<missing>")
+
+
+class CombinatorOuter(Contract):
+    returns = "any"
+    modifies = []
+    properties = ["C08", "C12"]
+
+
+@register
+class CustomNot(CombinatorOuter):
+    """custom_not(p): the negation closure over p; its unique_key is built from p's unique_key (keys
+    de-duplicate guards in CallbacksExecutor.add, so they must identify the operands, not just name them)."""
+    qualnames = [SP + "custom_not"]
+    params = [("predicate", "Operand")]
+
+    def post(self, s0, s, a, r):
+        uk = s0.sel("Operand.unique_key", a.predicate.e)
+        return {"C08|returns-the-negation-closure-over-the-operand": _closure_check(r, "decorated", {"predicate": a.predicate}),
+                "C12|unique-key-identifies-the-operand": _attr(r, "unique_key") == z3.Function("fmt<not(|{}|)>", Str, Str)(uk)}
+
+
+def _binary(name, opword):
+    @register
+    class _B(CombinatorOuter):
+        __doc__ = f"{name}(l, r): the `{opword}` closure over (l, r) in that order; unique_key from both operands' keys."
+        qualnames = [SP + name]
+        params = [("left", "Operand"), ("right", "Operand")]
+
+        def post(self, s0, s, a, r):
+            lk, rk = s0.sel("Operand.unique_key", a.left.e), s0.sel("Operand.unique_key", a.right.e)
+            return {f"C08|returns-the-{opword}-closure-over-left-then-right": _closure_check(r, "decorated", {"left": a.left, "right": a.right}),
+                    "C12|unique-key-identifies-both-operands": _attr(r, "unique_key") == z3.Function(
+                        "fmt<{}| |{}| |{}>", Str, Str, Str, Str)(lk, z3.StringVal(opword), rk)}
+    _B.__name__ = "Outer_" + name
+    return _B
+
+
+_binary("custom_and", "and")
+_binary("custom_or", "or")
+CLASSES["Operand"].methods["__call__"] = C("user:operand")
+GLOBAL_NAMES["statemachine.spec_parser:_unique_key"] = Py(("func", SP + "_unique_key", "inline"))
+CONTRACTS[SP + "_unique_key"] = type("InlUK", (Contract,), {"qualnames": [SP + "_unique_key"], "inline": True})()
